@@ -190,6 +190,12 @@ def gen(rng, n, exhaustive_upto):
             f2 = rng.randrange(nfeed); fl2 = rng.randrange(len(parents[f2]))
             faults[str(int(list(faults)[0]) + int((T + F(5, 2)) / dt) + int(T / dt) + 6)] = [[f"F{f2}L{fl2}", str(rng.choice(reps))]]
         cases.append(make_case(spec, faults, dt, f"{nfeed}-feeders-sw{sw}{'' if sw0 is None else '-bare-breaker-line'}-ties{len(ties)}"))
+        if len(cases) % 5 == 0:
+            # units: the run's time unit is seconds / minutes / days, or the sectioning time is written in minutes / seconds / days
+            if rng.random() < 0.5:
+                cases[-1]["unit"] = rng.choice([1, 2, 2, 4])
+            else:
+                spec["ctrl"]["T_unit"] = rng.choice([1, 2, 2, 4])
     return cases
 
 
@@ -199,7 +205,7 @@ def run(res):
     res.rule = (f"exhaustive: every rooted feeder tree with <= {ex} lines x switch class (both ends / upstream end / none) x every faulted line; "
                 "random: 1-2 feeders of up to 6 lines, both-end disconnectors with a backup tie (40% with a breaker line that carries the breaker only; 30% of the faults on the breaker line), upstream-only or none without ties, fault instants 1..4, "
                 "repair in {1/2,1,4/3,2,5/2} h, sectioning in {1/2,3/4,1,3/2} h, steps 1, 1/2, 1/4 h, 30% with a second non-overlapping contingency. "
-                "non-trivial = distinct (lines, passes of sectioning, persistence, ties, number of contingencies)")
+                "every fifth random case runs in seconds / minutes / days or has its sectioning time written in such a unit; non-trivial = distinct (lines, passes of sectioning, persistence, ties, number of contingencies)")
     res.exhaustive = True
     run_cases(res, gen(rng, n, ex), handler, compare)
 
